@@ -22,6 +22,8 @@
 #include "jdatadst-tj.c"
 #undef OUTPUT_BUF_SIZE
 #include "turbojpeg.c"
+/* the memory manager of the tree as well, for its private bookkeeping (total_space_allocated, pool lists) */
+#include "jmemmgr.c"
 #include "jdmaster.h"
 #define C12_NUMPARAM (TJPARAM_SAVEMARKERS + 1)
 
@@ -176,6 +178,7 @@ static void build_library(void)
   mk_markers(24, 1);
   mk(25, 8,  64, 64, TJPF_RGB,  TJSAMP_422, 75, 0, 0, 0, 1, 0, 0, 0, 0, -1, 0);
   mk(26, 8,  64, 64, TJPF_RGB,  TJSAMP_444, 75, 0, 0, 0, 1, 0, 0, 0, 0, -1, 3);
+  mk(27, 8,  256, 256, TJPF_RGB, TJSAMP_444, 75, 1, 0, 0, 1, 0, 0, 0, 0, -1, 0);   /* ~400 KB of coefficient arrays */
 }
 
 /* parse the marker structure of a stream up to SOS: offsets of marker starts */
@@ -281,6 +284,31 @@ static tjhandle new_instance(int type)
   return hnd;
 }
 
+/* accounting drift of a memory manager: total_space_allocated minus what its pool lists really hold
+   (the same block sizes free_pool() subtracts); 0 at any time when the bookkeeping is right */
+static long mem_drift(struct jpeg_memory_mgr *pub)
+{
+  my_mem_ptr mem = (my_mem_ptr)pub;
+  size_t sum = sizeof(my_memory_mgr);
+  int pool;
+  if (!mem) return 0;
+  for (pool = 0; pool < JPOOL_NUMPOOLS; pool++) {
+    small_pool_ptr sp;
+    large_pool_ptr lp;
+    for (sp = mem->small_list[pool]; sp; sp = sp->next)
+      sum += sp->bytes_used + sp->bytes_left + sizeof(small_pool_hdr) + ALIGN_SIZE - 1;
+    for (lp = mem->large_list[pool]; lp; lp = lp->next)
+      sum += lp->bytes_used + lp->bytes_left + sizeof(large_pool_hdr) + ALIGN_SIZE - 1;
+  }
+  return (long)mem->total_space_allocated - (long)sum;
+}
+static int image_pool_empty(struct jpeg_memory_mgr *pub)
+{
+  my_mem_ptr mem = (my_mem_ptr)pub;
+  return mem->small_list[JPOOL_IMAGE] == NULL && mem->large_list[JPOOL_IMAGE] == NULL &&
+         mem->virt_sarray_list == NULL && mem->virt_barray_list == NULL;
+}
+
 /* ------------------------------------------------------------ state dump */
 static void dump_state(tjinstance *t, char *out, size_t cap)
 {
@@ -309,6 +337,9 @@ static void dump_state(tjinstance *t, char *out, size_t cap)
                   d->saw_JFIF_marker, d->saw_Adobe_marker, d->Adobe_transform);
   } else
     n += snprintf(out + n, cap - n, "d:- ");
+  n += snprintf(out + n, cap - n, "m:%ld,%d,%ld,%d ",
+                (t->init & COMPRESS) ? mem_drift(t->cinfo.mem) : 0L, (t->init & COMPRESS) ? image_pool_empty(t->cinfo.mem) : 1,
+                (t->init & DECOMPRESS) ? mem_drift(t->dinfo.mem) : 0L, (t->init & DECOMPRESS) ? image_pool_empty(t->dinfo.mem) : 1);
   n += snprintf(out + n, cap - n, "p:");
   for (i = 0; i < C12_NUMPARAM; i++) n += snprintf(out + n, cap - n, "%d,", tj3Get((tjhandle)t, i));
   n += snprintf(out + n, cap - n, "%d,%d,%d,%d,%d,%d,%d", t->scalingFactor.num, t->scalingFactor.denom, t->croppingRegion.x,
@@ -394,7 +425,7 @@ static void prep_jbuf(struct runctx *rc, char mode, size_t big)
   }
 }
 
-#define MAXDIM 160
+#define MAXDIM 256
 
 static void run_op(struct runctx *rc, char **tk, int nt, struct opres *r)
 {
